@@ -252,3 +252,59 @@ Print Assumptions arch_roundtrip.
 
 Example blank_arch_refuted : parse_arch (arch_string (parse_arch (s "--"))) <> parse_arch (s "--").
 Proof. vm_compute. discriminate. Qed.
+
+(* ---------- names with an empty component are rejected (repair: parseArchInto) ---------- *)
+Definition arch_ok (x : str) : bool := forallb (fun f => negb (str_eqb f [])) (split_dash 3 [] x).
+(* ParseArch as the code has it now: an error for "", "-", "linux-", "--", ... *)
+Definition parse_arch_opt (x : str) : option arch := if arch_ok x then Some (parse_arch x) else None.
+
+Definition nonempty3 (a : arch) : Prop := abi a <> [] /\ os a <> [] /\ cpu a <> [].
+
+Lemma neg_nil f : negb (str_eqb f []) = true <-> f <> [].
+Proof. destruct (str_eqb_spec f []); cbn; split; congruence. Qed.
+
+Lemma arch_ok_nonempty x : arch_ok x = true -> nonempty3 (parse_arch x).
+Proof.
+  unfold arch_ok, parse_arch, nonempty3. pose proof (split_shape x 2 [] (Forall_nil _)) as Sh.
+  destruct (split_dash 3 [] x) as [|p1 [|p2 [|p3 [|p4 l]]]] eqn:E; cbn [forallb]; intros H.
+  - contradiction.
+  - rewrite andb_true_r in H. apply neg_nil in H.
+    destruct (str_eqb p1 all || str_eqb p1 any); cbn [mk abi os cpu]; repeat split; auto; discriminate.
+  - apply andb_true_iff in H as [H1 H2]. rewrite andb_true_r in H2. apply neg_nil in H1, H2.
+    cbn [mk abi os cpu]. repeat split; auto. destruct (str_eqb p1 any || str_eqb p2 any); discriminate.
+  - apply andb_true_iff in H as [H1 H]. apply andb_true_iff in H as [H2 H3]. rewrite andb_true_r in H3.
+    apply neg_nil in H1, H2, H3. cbn [mk abi os cpu]. auto.
+  - cbn [removelast last List.length] in Sh. destruct Sh as (_&H2&_). cbn in H2. lia.
+Qed.
+Lemma arch_ok_not_zero x : arch_ok x = true -> ~ zero_arch (parse_arch x).
+Proof. intros H (A&_&_). destruct (arch_ok_nonempty x H) as (N&_&_). contradiction. Qed.
+
+(* conversely: a text that parses to a triple without empty component has no empty piece *)
+Lemma nonempty_arch_ok t : nonempty3 (parse_arch t) -> arch_ok t = true.
+Proof.
+  unfold arch_ok, parse_arch, nonempty3. pose proof (split_shape t 2 [] (Forall_nil _)) as Sh.
+  destruct (split_dash 3 [] t) as [|p1 [|p2 [|p3 [|p4 l]]]] eqn:E; cbn [forallb].
+  - contradiction.
+  - intros (_&_&C). rewrite andb_true_r. apply neg_nil. destruct (str_eqb p1 all || str_eqb p1 any); exact C.
+  - cbn [mk abi os cpu]. intros (_&B&C). rewrite andb_true_r. apply andb_true_iff. split; now apply neg_nil.
+  - cbn [mk abi os cpu]. intros (A&B&C). rewrite andb_true_r. repeat (apply andb_true_iff; split); now apply neg_nil.
+  - cbn [removelast last List.length] in Sh. destruct Sh as (_&H2&_). cbn in H2. lia.
+Qed.
+
+(* C05 for architecture names, without exception: whatever ParseArch accepts renders to a name that ParseArch
+   accepts and that parses to the same triple *)
+Theorem arch_roundtrip_ok x : arch_ok x = true ->
+  arch_ok (arch_string (parse_arch x)) = true /\ parse_arch (arch_string (parse_arch x)) = parse_arch x.
+Proof.
+  intros H. pose proof (arch_roundtrip x (arch_ok_not_zero x H)) as R. split; [|exact R].
+  apply nonempty_arch_ok. rewrite R. now apply arch_ok_nonempty.
+Qed.
+Theorem arch_opt_roundtrip x a : parse_arch_opt x = Some a -> parse_arch_opt (arch_string a) = Some a.
+Proof.
+  unfold parse_arch_opt. destruct (arch_ok x) eqn:H; [|discriminate]. intros E. inversion E; subst.
+  destruct (arch_roundtrip_ok x H) as [O R]. now rewrite O, R.
+Qed.
+Print Assumptions arch_opt_roundtrip.
+Example empty_components_rejected : parse_arch_opt (s "--") = None /\ parse_arch_opt (s "linux-") = None /\ parse_arch_opt [] = None /\
+  parse_arch_opt (s "-amd64") = None /\ parse_arch_opt (s "a--b") = None /\ parse_arch_opt (s "linux-any") <> None.
+Proof. vm_compute. repeat split; discriminate. Qed.
